@@ -144,6 +144,12 @@ def type_partition(cx):
     handled, _ = dispatcher_arms(cx)
     for v in sorted(allv):
         cx.check(v in handled, "arm:" + v, "%s has a handler arm (in %s)" % (v, sorted(handled.get(v, []))))
+    # the response filter: every reply type (and nothing a node must accept from a peer it does not know yet)
+    ir = cx.fn("raw_node::is_response_msg")
+    rt, rf = true_set(cx, ir)
+    cx.need(rt is not None, "is_response_msg(MessageType) -> bool with constant results")
+    replies = {v for v in allv if v.endswith("Response")}
+    cx.check(rt | rf == allv and replies <= rt and rt - replies <= tr, "response-set", "is_response_msg is true for every *Response type (a reply from a non-member must be rejected) and otherwise only for local-only types (is_response: %s)" % sorted(rt))
 
 
 def membership_changers(cx):
